@@ -35,7 +35,9 @@ def parse_stacks(blk):
 
 
 def is_internal(fn):
-    return fn.startswith(("runtime.", "sync.", "sync/atomic.", "reflect.", "internal/", "bytes.", "strings.", "unicode", "fmt.", "strconv.", "encoding/", "bufio.", "io.", "sort.", "math"))
+    # standard library frames: the accessing frame of a stack is the innermost frame outside of them
+    return fn.startswith(("runtime.", "sync.", "sync/atomic.", "reflect.", "internal/", "bytes.", "strings.", "unicode", "fmt.", "strconv.", "encoding/", "bufio.", "io.", "io/",
+                          "sort.", "math", "net.", "net/", "syscall.", "os.", "time.", "context.", "compress/", "crypto/", "hash/", "errors.", "regexp.", "container/", "text/", "log."))
 
 
 def is_harness(fn):
